@@ -72,7 +72,14 @@ fn write_source_span_at(f: &mut fmt::Formatter<'_>, file: &FileOrLib, span: Span
         FileOrLib::Lib(lib) => write_source_line_from_stdlib(f, lib, span.line_start)?,
     }
     write!(f, "{}", INDENT)?;
-    underline(f, span.col_start, span.col_end - span.col_start)
+    // A span that ends on a later line (a string literal with newlines in it) has a
+    // col_end that belongs to that later line: underline its first character only.
+    let len = if span.line_end == span.line_start {
+        span.col_end.saturating_sub(span.col_start)
+    } else {
+        1
+    };
+    underline(f, span.col_start, len)
 }
 
 fn file_line_display(file: &FileOrLib, line: usize) -> String {
